@@ -95,13 +95,15 @@ theorem viewA_length_fc {src : Bytes} {ls p : Nat} :
     omega
   · rfl
 
-theorem nodeRel_fenced (src : Bytes) (iA iB : Option Segment) (hi : InfoRel src iA iB) :
+theorem nodeRel_fenced (src : Bytes) (iA iB : Option Segment) (hi : InfoRel src iA iB)
+    (hne : ∀ i, iA = some i → i.start < i.stop) :
     NodeRel src false { kind := .fencedCodeBlock, info := iA } { kind := .fencedCodeBlock, info := iB } :=
-  ⟨rfl, rfl, rfl, trivial, rfl, rfl, rfl, rfl, rfl, rfl, rfl, hi, .inl ⟨by show (-1 : Int) < 0; decide, rfl⟩⟩
+  ⟨rfl, rfl, rfl, trivial, rfl, rfl, rfl, rfl, rfl, rfl, rfl, hi, .inl ⟨by show (-1 : Int) < 0; decide, rfl⟩,
+    (fun _ l hl => by cases hl), hne, (fun h => absurd h (by show ¬ (0 : Int) ≤ -1; decide))⟩
 
 /-- the common tail of `fencedOpen`: allocate the node, remember the fence -/
 theorem fencedOpen_tail {src k ls p} {sA sB : St} (h : SR src k ls p sA sB) (iA iB : Option Segment)
-    (hi : InfoRel src iA iB) (c : UInt8) (ind len : Int) :
+    (hi : InfoRel src iA iB) (hne : ∀ i, iA = some i → i.start < i.stop) (c : UInt8) (ind len : Int) :
     S2 (fun a b sA' sB' => OpenRel a b ∧ ∃ p', p ≤ p' ∧ SR src k ls p' sA' sB')
       ((do
         let node ← newNode { kind := .fencedCodeBlock, info := iA }
@@ -111,7 +113,7 @@ theorem fencedOpen_tail {src k ls p} {sA sB : St} (h : SR src k ls p sA sB) (iA 
         let node ← newNode { kind := .fencedCodeBlock, info := iB }
         modPc fun pc => { pc with fence := some { char := c, indent := ind, length := len, node := node } }
         pure (some node, stNoChildren) : M (Option Nat × PState)) sB) := by
-  refine S2.bind (newNode_s2 h _ _ (nodeRel_fenced src iA iB hi)) (fun n m sA1 sB1 hq => ?_)
+  refine S2.bind (newNode_s2 h _ _ (nodeRel_fenced src iA iB hi hne)) (fun n m sA1 sB1 hq => ?_)
   obtain ⟨_, hm, hn0, h1⟩ := hq
   subst hm
   refine S2.bind (modPc_s2 h1 _ _ (fun a b hab => ?_)) (fun _ _ sA2 sB2 h2 => ?_)
@@ -163,7 +165,7 @@ theorem fencedOpen_sim (src : Bytes) : OpenSim src .fenced := by
   by_cases hc3 : i < (line.length : Int) - 1
   rotate_left
   · rw [if_neg hc3, if_neg hc3]
-    exact fencedOpen_tail h1 none none trivial _ _ _
+    exact fencedOpen_tail h1 none none trivial (fun i hi => by cases hi) _ _ _
   rw [if_pos hc3, if_pos hc3]
   refine S2.bind liftE_same_s2 (fun rest0 rest sA4 sB4 hq => ?_)
   obtain ⟨hr', hrest, e1, e2⟩ := hq
@@ -178,7 +180,7 @@ theorem fencedOpen_sim (src : Bytes) : OpenSim src .fenced := by
   by_cases hc4 : (left : Int) < (rest.length : Int) - right
   rotate_left
   · rw [if_neg hc4, if_neg hc4]
-    exact fencedOpen_tail h1 none none trivial _ _ _
+    exact fencedOpen_tail h1 none none trivial (fun i hi => by cases hi) _ _ _
   rw [if_pos hc4, if_pos hc4]
   refine S2.bind liftE_same_s2 (fun value0 value sA5 sB5 hq => ?_)
   obtain ⟨hv', _, e1, e2⟩ := hq
@@ -193,9 +195,12 @@ theorem fencedOpen_sim (src : Bytes) : OpenSim src .fenced := by
       (shK k (segA src ls p)).stop - (right : Int)) = true := by
     simp only [segA, shK, bne_iff_ne, ne_eq]; omega
   rw [if_pos hneA, if_pos hneB]
-  refine fencedOpen_tail h1 _ _ ?_ _ _ _
-  show SegRel src _ _
   have hge := hi.ge
+  refine fencedOpen_tail h1 _ _ ?_ (fun j hj => ?_) _ _ _
+  rotate_left
+  · cases hj
+    simp only [segA]; omega
+  show SegRel src _ _
   refine ⟨k, ls, hi.line, ?_, ?_, ?_, ?_⟩
   · simp only [segA]; omega
   · simp only [segA]; omega
@@ -389,7 +394,7 @@ theorem fencedRest_s2 {src k ls p} {sA sB : St} (h : SR src k ls p sA sB) (node 
     · simp only; omega
     · simp only; omega
     · simp only [shK, Segment.mk.injEq, and_true]; omega
-  refine S2.bind (appendLine_s2 h node hseg) (fun _ _ sA1 sB1 h1 => ?_)
+  refine S2.bind (appendLine_s2 h node hseg (.inl (by simp only; omega))) (fun _ _ sA1 sB1 h1 => ?_)
   refine S2.bind (advanceAndSetPadding_s2 h1 (by omega) rfl (by omega) (Int.le_refl _) ?_) (fun _ _ sA2 sB2 h2 => ?_)
   · refine ⟨hi.line, by omega, by omega, fun e => ?_⟩
     exfalso; omega
